@@ -283,6 +283,7 @@ class OpsMixin:
             if z3.is_int_value(c) and c.as_long() % k == 0:
                 res = (mkint(x * (c.as_long() // k)), 0)
                 self.divmod_cache[key] = res
+                self.keep.append(a.t)          # the key is the term id: keep the term alive so the id is not reused
                 return res
         self.fresh_n += 1
         q = z3.Int(f"_q{self.fresh_n}")
@@ -298,6 +299,7 @@ class OpsMixin:
             self.add_fact(z3.And(r <= 0, r > k))
         res = (SymInt(q), SymInt(r))
         self.divmod_cache[key] = res
+        self.keep.append(a.t)
         return res
 
     def and_const(self, a, mask):
@@ -1094,6 +1096,8 @@ class OpsMixin:
         """int(f) / math.floor(f) / math.ceil(f)"""
         if v.ival is not None:
             return v.ival
+        if v.dec is not None and v.dec[2] >= len(v.dec[1]) - 1 and len(v.dec[1]) <= 15:
+            return self.rational(v)[0]          # an integer-valued decimal of <= 15 digits: exact
         if v.real is not None or v.dec is not None:
             return self.real_to_int(self.real_of(v), mode)
         if v.quot is not None:
